@@ -151,8 +151,14 @@ func isAuthorizedResponder(ocspResponse *ocsp.Response, issuer *x509.Certificate
 func (c *OCSPRevocationChecker) Provision(ocspConfig *config.OCSPConfig, logger *zap.Logger) error {
 	c.ocspConfig = ocspConfig
 	c.logger = logger
-	c.cache = cache2go.Cache("ocsp_client")
+	//validators with different ocsp settings must not serve each others cached responses: whether and how long a
+	//response may be cached and whose signature counts is decided by the configuration of the validator
+	c.cache = cache2go.Cache(cacheTableName(ocspConfig))
 	return nil
+}
+
+func cacheTableName(ocspConfig *config.OCSPConfig) string {
+	return "ocsp_client_" + ocspConfig.DefaultCacheDuration + "_" + strings.Join(ocspConfig.TrustedResponderCertsFiles, "|")
 }
 
 func (c *OCSPRevocationChecker) Cleanup() error {
